@@ -593,26 +593,32 @@ Proof.
   unfold vfields. unfold hkdf_min_key_prim in P. lia.
 Qed.
 
-Lemma rsa_exponent_small e : be_val e < 18446744073709551616 -> rsa_exponent e = 65537 -> be_val e = 65537.
-Proof. unfold rsa_exponent. intros H1 H2. rewrite N.mod_small in H2; assumption. Qed.
+Lemma rsa_exponent_exact e v : rsa_exponent_parse_ok (rsa_exponent e) = true ->
+  exponent_value (rsa_exponent e) = v -> be_val e = v.
+Proof.
+  unfold rsa_exponent. destruct (be_val e <? 9223372036854775808); simpl; [|discriminate].
+  intros _ H. exact H.
+Qed.
 
-Lemma strength_rsa_pkcs1 kd prefix idreq : usable kd prefix idreq = true -> exponent_fits_64 kd ->
+Lemma strength_rsa_pkcs1 kd prefix idreq : usable kd prefix idreq = true ->
   is_url kd url_rsa_pkcs1_pub -> rsa_strong (vfields kd).
 Proof.
-  intros H F U. change (kd_url kd = u_rsa_pkcs1_pub) in U. dispatch H U. peel H C P.
-  unfold rsa_strong. unfold exponent_fits_64 in F. unfold vfields in *.
+  intros H U. change (kd_url kd = u_rsa_pkcs1_pub) in U. dispatch H U. peel H C P.
+  unfold rsa_strong. unfold vfields in *.
+  repeat rewrite andb_true_iff in C. destruct C as [_ C].
   repeat rewrite andb_true_iff in P. destruct P as [[P1 P2] _].
-  unfold rsa_exponent_prim in P2. apply N.eqb_eq in P2. apply rsa_exponent_small in P2; auto.
+  unfold rsa_exponent_prim in P2. apply N.eqb_eq in P2. apply (rsa_exponent_exact _ _ C) in P2.
   unfold rsa_min_bits_prim in P1. split; [lia|exact P2].
 Qed.
 
-Lemma strength_rsa_pss kd prefix idreq : usable kd prefix idreq = true -> exponent_fits_64 kd ->
+Lemma strength_rsa_pss kd prefix idreq : usable kd prefix idreq = true ->
   is_url kd url_rsa_pss_pub -> rsa_strong (vfields kd).
 Proof.
-  intros H F U. change (kd_url kd = u_rsa_pss_pub) in U. dispatch H U. peel H C P.
-  unfold rsa_strong. unfold exponent_fits_64 in F. unfold vfields in *.
+  intros H U. change (kd_url kd = u_rsa_pss_pub) in U. dispatch H U. peel H C P.
+  unfold rsa_strong. unfold vfields in *.
+  repeat rewrite andb_true_iff in C. destruct C as [_ C].
   repeat rewrite andb_true_iff in P. destruct P as [[P1 P2] _].
-  unfold rsa_exponent_prim in P2. apply N.eqb_eq in P2. apply rsa_exponent_small in P2; auto.
+  unfold rsa_exponent_prim in P2. apply N.eqb_eq in P2. apply (rsa_exponent_exact _ _ C) in P2.
   unfold rsa_min_bits_prim in P1. split; [lia|exact P2].
 Qed.
 
@@ -648,10 +654,10 @@ Proof.
   unfold ecdsa_params_strong, vfields. eapply ecdsa_params_level. exact EP.
 Qed.
 
-Theorem usable_strength_partial kd prefix idreq :
-  usable kd prefix idreq = true -> exponent_fits_64 kd -> strength_ok kd.
+Theorem usable_strength kd prefix idreq :
+  usable kd prefix idreq = true -> strength_ok kd.
 Proof.
-  intros H F. unfold strength_ok. cbv zeta.
+  intros H. unfold strength_ok. cbv zeta.
   split; [intros U; eapply strength_hmac; eauto|].
   split; [intros U; eapply strength_aes_gcm; eauto|].
   split; [intros U; eapply strength_aes_gcm_siv; eauto|].
@@ -666,17 +672,17 @@ Proof.
   intros U; eapply strength_ecdsa_priv; eauto.
 Qed.
 
-(* The full statement (without exponent_fits_64) is FALSE of the code: an RSA
-   public key whose exponent field is 2^64 + 65537 is parsed as e = 65537
-   (int(exponent.Int64()) keeps the low 64 bits) and a verifier is created. *)
+(* Regression (defect fixed in /repo, commit 067e856): an RSA public key whose
+   exponent field is 2^64 + 65537 used to be parsed as e = 65537 by
+   int(exponent.Int64()); with the IsInt64 check it is rejected. *)
 Definition rsa_trunc_value : bytes :=
   [18; 2; 8; 3; 26; 128; 2] ++ (128 :: repeat 1 255%nat) ++ [34; 9; 1; 0; 0; 0; 0; 0; 1; 0; 1].
 Definition rsa_trunc_kd : keydata := mkKD u_rsa_pkcs1_pub rsa_trunc_value km_public.
 
-Theorem rsa_exponent_truncation :
-  usable rsa_trunc_kd pt_tink 7 = true /\ ~ strength_ok rsa_trunc_kd.
+Theorem rsa_exponent_truncation_rejected :
+  ~ strength_ok rsa_trunc_kd /\ parse_key ec_point_ok ec_pub_of_priv rsa_trunc_kd pt_tink 7 = Err.
 Proof.
-  split; [vm_compute; reflexivity|].
+  split; [|vm_compute; reflexivity].
   intros S. destruct S as [_ [_ [_ [_ [_ [_ [_ [_ [S _]]]]]]]]].
   assert (U : is_url rsa_trunc_kd url_rsa_pkcs1_pub) by (vm_compute; reflexivity).
   destruct (S U) as [_ E]. vm_compute in E. discriminate.
